@@ -1,5 +1,5 @@
 //verif:package github.com/kstenerud/go-concise-encoding/internal/verifh/c06
-//verif:config cap=300
+//verif:config cap=300 maxsec=1800
 //verif:bounds rules-valid event streams from templates with symbolic payloads, unmarshaled with no template by the real builder Session/BuilderEventReceiver and marshaled again by the real iterator Session: integers in all three event forms over all 64-bit payloads, floats (all bit patterns), booleans, null in containers, strings of 0..3 symbolic ASCII bytes, typed arrays (uint8, uint16, int32, float64 of 0..2 symbolic elements, whole and chunked), lists and maps nested to depth 2 with 1..2 entries, nodes, edges, record types + records (1..3 keys, one or two types; also through the real CBE encoder and decoder), markers with backward and forward references to scalars, lists and maps (one forward reference inside a list that grows by 3..5 elements before its marker arrives), comments and padding between events; free event histories of <= 4 (quick) / 5 (thorough) events over {marker, reference (ids a/b), integer, null, string, true, list, map, node, end} that the real validator accepts as complete, acyclic documents
 //verif:assume the event streams are delivered directly to the builder after the real rules validator accepted them (the byte decoders are covered by C01/C07); reflect, sync.Map and WaitGroup are the engine's emulation / sequential model; "the same data" is compared on value trees: integers by value, map entries in any order, records as maps over their type's keys, references replaced by their targets, comments and padding dropped. Big numbers, times, media, custom types, resource ids and documents whose marshaled form needs recursion support are not generated
 package c06
